@@ -32,12 +32,14 @@ PSETS = [
     ("chain-one-param-log", "Chain3", [0.9, 0.4], None, ["R"], [P("gamma", "unif", -1.5, L(0.41), log=True)], None),
     ("logistic-2", "Logistic", [0.9, 5.0], None, ["S"], [P("kappa", "unif", 1.0, 5.1), P("beta", "gamma", 3.0, 3.0)], None),
     ("logistic-state", "Logistic", [0.9, 5.0], None, ["S"], [P("S", "unif", 0.1, 0.52), P("beta", "unif", 0.0, 2.0)], None),
+    ("drift-poisson", "Drift", [60.0, 24.0], [200.0], ["S"], [P("beta", "unif", 0.0, 180.0), P("gamma", "unif", 0.0, 300.0)], None),
     ("sir-2unif", "SIR_norm", [1.8, 0.6], None, ["I", "R"], [P("beta", "unif", 0.0, 1.85), P("gamma", "unif", 0.0, 3.0)], None),
 ]
 LOSS_OF = {"chain-2unif": ("Square", None), "chain-gamma-first": ("Square", None), "chain-gamma2-norm": ("Normal", 0.7),
            "chain-log-mixed": ("Square", None), "chain-log-both": ("Poisson", None), "chain-state-first": ("Square", None),
            "chain-state-constraint": ("Normal", 1.0), "chain-one-param": ("Square", None), "chain-one-param-log": ("Square", None),
-           "logistic-2": ("Square", None), "logistic-state": ("Normal", 0.5), "sir-2unif": ("Square", None)}
+           "logistic-2": ("Square", None), "logistic-state": ("Normal", 0.5), "sir-2unif": ("Square", None), "drift-poisson": ("Poisson", None)}
+NAN_POINT = {"drift-poisson": [60.0, 290.0]}     # inside the prior support; the prediction becomes negative, the Poisson cost nan
 
 
 def n_for(P_, kind):
@@ -69,7 +71,7 @@ def make_cfg(pset, schedule):
     slabel, N, calls = schedule
     loss, sigma = LOSS_OF[label]
     return {"name": label + "/" + slabel, "model": model, "theta": theta, "x0": x0, "observed": observed, "parameters": pars, "constraint": con,
-            "loss": loss, "sigma": sigma, "N": N, "calls": calls}
+            "loss": loss, "sigma": sigma, "N": N, "calls": calls, "nan_point": NAN_POINT.get(label)}
 
 
 _PB = {}
@@ -292,7 +294,7 @@ def main(argv=None):
         "states": props, "transitions": props, "traces_validated_against_impl": judged,
         "rule": "%d configurations = parameter sets %s x schedules %s. The environment owns every prior draw, particle choice and kernel draw of the "
                 "real ABC.get_posterior_sample / continue_posterior_sample and answers each proposal by class (ACCEPT / REJECT_TOL / REJECT_PRIOR / "
-                "DUPLICATE incl. the particle whose distance IS the quantile tolerance; particle index from {0, N-1}); all executions with at most "
+                "DUPLICATE incl. the particle whose distance IS the quantile tolerance / REJECT_NAN, a supported point where the cost is undefined; particle index from {0, N-1}); all executions with at most "
                 "%s non-default answers are enumerated. states/transitions = proposals answered (each one a step of the reference ABC run, "
                 "compared with the library's particle table after the step); traces validated = executions whose complete reference trace "
                 "(accepted proposals, distances, tolerance schedule, final tolerance) was matched against the library's state after every call. "
